@@ -488,3 +488,16 @@ def base_cfg(rng, flavours, versions=tables.VERSIONS, persistence=(None,), sched
         "sched": sched or {"policy": "serial"},
     }
     return cfg
+
+
+def chunkify(rng, ops, max_lines=5, p_join=0.6):
+    """Merge runs of consecutive line ops into multi-line chunks (device flavours)."""
+    out = []
+    for op in ops:
+        if op[0] == "line" and out and out[-1][0] == "chunk" and len(out[-1][1]) < max_lines and rng.random() < p_join:
+            out[-1][1].append([op[1], op[2] if len(op) > 2 else "\n"])
+        elif op[0] == "line":
+            out.append(["chunk", [[op[1], op[2] if len(op) > 2 else "\n"]]])
+        else:
+            out.append(op)
+    return out
